@@ -237,6 +237,9 @@ func (l *Local) load(podResources []daemon.PodResources) error {
 
 	// allocate to previous pods
 	for _, podResource := range podResources {
+		if podResource.PodInfo == nil {
+			continue
+		}
 		podID := podResource.PodInfo.Namespace + "/" + podResource.PodInfo.Name
 
 		for _, res := range podResource.Resources {
